@@ -21,14 +21,14 @@ from mc.oracles import geometry as geo
 LEVEL = "exploration"
 CLASSES = ["Cuboid", "Cylinder", "CylinderSegment", "Sphere", "Tetrahedron", "TriangularMesh", "Triangle", "Circle", "Polyline", "Dipole",
            "Sensor"]
-PATHS = ["static", "transl3", "rot4"]
+PATHS = ["static", "transl3", "rot4", "spin4"]
 FRAMES = ["default", 1, 2, [0, 2], [0, 9]]
 UNITS = ["m", "mm", "km"]
 NEST = ["bare", "coll", "nested"]
 TV = [(-0.5, -0.4, -0.3), (0.9, -0.3, -0.4), (-0.2, 0.8, -0.3), (0.0, 0.0, 0.9)]
 TF = [(0, 2, 1), (0, 1, 3), (0, 3, 2), (1, 2, 3)]
 PAR = {"Cuboid": {"dimension": (1.0, 1.2, 0.8)}, "Cylinder": {"dimension": (1.0, 1.2)}, "CylinderSegment": {"dimension": (0.3, 0.9, 1.1, -30, 200)},
-       "Sphere": {"diameter": 1.1}, "Tetrahedron": {"vertices": TV}, "TriangularMesh": {"vertices": TV, "faces": TF},
+       "Sphere": {"diameter": 1.1}, "Tetrahedron": {"vertices": [TV[0], TV[2], TV[1], TV[3]]}, "TriangularMesh": {"vertices": TV, "faces": TF},
        "Triangle": {"vertices": TV[:3]}, "Circle": {"diameter": 1.3}, "Polyline": {"vertices": [(0, 0, 0), (1, 1, 0.5), (1, 2, -0.4)]}}
 UNIT_FACTOR = {"m": 1.0, "mm": 1e3, "km": 1e-3, "cm": 1e2, "µm": 1e6, "um": 1e6, "nm": 1e9}
 
@@ -61,6 +61,8 @@ def mk(cls, pathkind, scale=1.0):
     elif pathkind == "rot4":
         o.move(np.array([(0.5, 0.2, 0.1), (1.0, 0.1, -0.2), (1.2, 0.8, 0.3)]) * scale)
         o.rotate_from_rotvec([(0.0, 0.3, 0.1), (0.4, 0.1, -0.3), (0.2, -0.6, 0.5)], degrees=False, start=1)
+    elif pathkind == "spin4":   # turns on the spot: one position, four orientations
+        o.rotate_from_angax([40, 80, 120], (1, 2, 3))
     elif pathkind == "long11":  # longer than the number of frames an animation is allowed below: indices are downsampled
         o.move(np.array([(0.31 * i, 0.07 * i * i, -0.11 * i) for i in range(1, 11)]) * scale)
         o.rotate_from_rotvec([(0.05 * i, 0.3 - 0.02 * i, 0.1 * i) for i in range(1, 11)], degrees=False, start=1)
@@ -163,6 +165,9 @@ def check_object(cls, obj, traces, factor, frames, scale, displayed=None):
             problems.append(f"displayed-poses-unequal-shares:{counts}")
         # extent
         for m in idxs:
+            if not np.any(owner == m):
+                problems.append(f"displayed-pose-missing:index-{m}")
+                break
             loc = back(V[owner == m], m)
             if cls in ("Tetrahedron", "TriangularMesh", "Triangle"):
                 vv = np.array(par["vertices"], float)
@@ -429,6 +434,8 @@ def enumerate_cases(tier):
             for frames in FRAMES:
                 if pk == "static" and frames != "default":
                     continue
+                if pk == "spin4" and cls in ("Sphere", "Dipole"):
+                    continue   # poses of a body that is symmetric under the turn cannot be told apart in the drawing
                 for unit in (UNITS if tier == "thorough" else ["m", "mm"]):
                     for nest in NEST:
                         if tier == "quick" and nest == "nested" and (unit != "m" or frames not in ("default", 1)):
